@@ -5,7 +5,7 @@
 import os, sys
 sys.path.insert(0, os.path.join(os.environ.get("AIOFTP_REPO", "/repo"), "src"))
 OBLIGATION = 'aioftp.server:list_worker@list::worker.<locals>.wrapper/detach:takes-over-exactly-the-stream-it-read-atomically'
-MODEL = {'tm_D!70': 26, 'st_mtime!66': '0/1', 'child!50': 'OPath!val!0', 'block_size!0': 1, 'st_nlink!63': 2, 'dc_accepted!38': True, 'st_mode!64': 2997, 'wait_future_timeout!41': '0/1', 'tm_M!69': 2, 'tm_mi!72': 36, 'data_connection_done!22': True, 'restart_offset!10': 0, 'tm_s!73': 0, 'tm_Y!68': 1, 'tm_h!71': 20, 'walltime!67': '0/1', 'st_size!62': 2, 'dc_accepted!43': False, 'dc_accepted!39': False, 'dc_accepted!33': False, 'dc_accepted!30': False, 'dc_accepted!32': False, 'dc_accepted!29': False, 'data_connection_present!21': False, 'user_present!11': True, 'fsbool!35': True, 'user_done!12': True, 'filemode!74': 'ABIJCDEFGH', 'passive_server_done!20': True, 'logged_done!14': True, 'current_directory_done!16': True, 'current_directory_present!15': True, 'readable!36': True, 'passive_server_present!19': True, 'int2str!75': '2', 'logged_present!13': True, 'int2str!76': '2', 'fsbool!58': True, 'auth_ok!27': True}
+MODEL = {'tm_D!105': 28, 'tm_mi!107': 36, 'wait_future_timeout!48': '0/1', 'tm_s!108': 0, 'data_connection_done!22': True, 'walltime!102': '0/1', 'st_nlink!98': 2, 'block_size!0': 1, 'dc_accepted!38': True, 'tm_h!106': 3, 'child!76': 'OPath!val!0', 'tm_Y!103': 1, 'restart_offset!10': 0, 'st_mode!99': 2997, 'st_size!97': 2, 'tm_M!104': 2, 'st_mtime!101': '0/1', 'dc_accepted!50': False, 'dc_accepted!39': False, 'dc_accepted!33': False, 'dc_accepted!30': False, 'dc_accepted!32': False, 'dc_accepted!29': False, 'data_connection_present!21': False, 'fsbool!86': True, 'int2str!111': '2', 'current_directory_present!52': True, 'current_directory_present!41': True, 'current_directory_done!80': True, 'current_directory_done!53': True, 'current_directory_done!16': True, 'filemode!109': 'ABJKCDEFGI', 'readable!36': True, 'passive_server_present!19': True, 'current_directory_present!79': True, 'current_directory_present!69': True, 'int2str!110': '2', 'user_done!12': True, 'fsbool!35': True, 'current_directory_present!90': True, 'passive_server_done!20': True, 'logged_done!14': True, 'current_directory_done!117': True, 'current_directory_present!116': True, 'current_directory_present!15': True, 'logged_present!13': True, 'current_directory_done!42': True, 'current_directory_done!70': True, 'user_present!11': True, 'current_directory_done!91': True, 'auth_ok!27': True}
 SOLVER_NOTE = ''
 
 print("obligation", OBLIGATION, "failed; no concrete failing input could be constructed automatically")
